@@ -73,6 +73,8 @@ def translators():
   out['Src_supervised'] = lambda: translate_supervised.translate(REPO)
   import translate_itml
   out['Src_itml'] = lambda: translate_itml.translate(REPO)
+  import translate_lsml
+  out['Src_lsml'] = lambda: translate_lsml.translate(REPO)
   try:
     import translate_all
     out.update(translate_all.TRANSLATORS)
